@@ -44,6 +44,8 @@ import Driver.AlacCore
 import Driver.AbsMeta
 import Driver.Chmap
 import Driver.Probe
+import Driver.VocBlocks
+import Driver.ShortIo
 open Sf
 
 def lawOf (s : String) : Option G711.Law :=
@@ -133,4 +135,6 @@ def main (args : List String) : IO UInt32 := do
   | "abs-meta" :: rest => AbsMetaDriver.cmd rest
   | "chmap" :: rest => ChmapDriver.main rest
   | "probe" :: rest => ProbeDriver.main rest
+  | "vocblocks" :: rest => VocBlocksDriver.main rest
+  | "shortio" :: rest => ShortIoDriver.main rest
   | _ => IO.eprintln "usage: sfmodel <g711|...> ..."; return 2
